@@ -80,6 +80,7 @@ cdef class LegacyRecordBatch:
         PyObject_GetBuffer(buffer, &self._buffer, PyBUF_SIMPLE)
         self._magic = magic
         self._decompressed = 0
+        self._crc_valid = -1
         self._main_record = self._read_record(NULL)
 
     @staticmethod
@@ -101,6 +102,7 @@ cdef class LegacyRecordBatch:
 
         batch._magic = magic
         batch._decompressed = 0
+        batch._crc_valid = -1
         batch._main_record = batch._read_record(NULL)
         return batch
 
@@ -112,6 +114,13 @@ cdef class LegacyRecordBatch:
         return self._main_record.offset + 1
 
     def validate_crc(self):
+        if self._crc_valid == -1:
+            self._crc_valid = self._check_crc()
+        return self._crc_valid == 1
+
+    cdef int _check_crc(self):
+        # NOTE: must run while `_buffer` still holds the batch itself, ie.
+        #       before `_decompress()` replaces it with the inner message set
         cdef:
             unsigned long crc = 0
             char * buf
@@ -124,7 +133,7 @@ cdef class LegacyRecordBatch:
             &crc
         )
 
-        return self._main_record.crc == <uint32_t> crc
+        return 1 if self._main_record.crc == <uint32_t> crc else 0
 
     cdef int _decompress(self, char compression_type) except -1:
         cdef:
@@ -148,11 +157,14 @@ cdef class LegacyRecordBatch:
             else:
                 uncompressed = lz4_decode(value)
 
+        if self._crc_valid == -1:
+            # Last chance to check the batch's own checksum, see `_check_crc()`
+            self._crc_valid = self._check_crc()
         PyBuffer_Release(&self._buffer)
         PyObject_GetBuffer(uncompressed, &self._buffer, PyBUF_SIMPLE)
         return 0
 
-    cdef int64_t _read_last_offset(self) except -1:
+    cdef int64_t _read_last_offset(self) except? -1:
         cdef:
             Py_ssize_t buffer_len = self._buffer.len
             Py_ssize_t pos = 0
